@@ -5,6 +5,8 @@
 // Case lines (stateful; `reset` starts a new world):
 //
 //	vh <vhostHex>                                   → hex of getVirtualHostname()
+//	vhs <hostHex> <vhostHex>                        → same; the vhost is a structured spelling of <host>
+//	                                                  (host + optional Forge/TCPShield suffix + optional :port)
 //	reset <vhostHex> <forced> <try> <registered>    → ok         forced: keyHex=n,n;keyHex=n | -   lists: n,n | -
 //	next <current|->                                → ret=<name|-> idx=<tryIndex> list=<n,n|->
 //	conn <name|->   /  infl <name|->                → ok         (setConnectedServer / setInFlightConnection)
@@ -52,9 +54,10 @@ func (d *dialInfo) Dial(ctx context.Context, player proxy.Player) (net.Conn, err
 	n := d.w.dials
 	d.w.mu.Unlock()
 	if n > 25 {
+		// the real code keeps redirecting to failing servers without bound (it would end in a fatal stack
+		// overflow): end the player's session so that the recursion unwinds
 		d.w.runaway = true
-		_ = d.w.client.Close() // the player's connection drops: the real code stops recovering
-		_ = d.w.server.Close()
+		player.Disconnect(&component.Text{Content: "runaway"})
 	}
 	return nil, errors.New("connection refused")
 }
@@ -219,7 +222,7 @@ func mixCase(r *hx.Rng, s string) string {
 
 // spelling produces what session_client_handshake.go builds: "<ServerAddress>:<Port>" where the client's
 // ServerAddress may carry Forge (\x00FML\x00…) and TCPShield (///ip///ts) suffixes, odd case, dots.
-func spelling(r *hx.Rng, host string) string {
+func spelling(r *hx.Rng, host string) (hostPart, full string) {
 	h := host
 	if r.Chance(1, 2) {
 		h = mixCase(r, h)
@@ -232,6 +235,7 @@ func spelling(r *hx.Rng, host string) string {
 	case 2:
 		h += ".."
 	}
+	hostPart = h
 	switch r.Intn(6) {
 	case 0:
 		h += "\x00FML\x00"
@@ -247,7 +251,7 @@ func spelling(r *hx.Rng, host string) string {
 	if r.Chance(9, 10) {
 		h += fmt.Sprintf(":%d", hx.Pick(r, []int{25565, 25566, 1, 65535, 0}))
 	}
-	return h
+	return hostPart, h
 }
 
 func hostileVhost(r *hx.Rng) string {
@@ -318,7 +322,7 @@ func genScenario(r *hx.Rng, exactCase bool) scenario {
 		s.forced[k] = pickNames(r, pool, 3)
 	}
 	host := hx.Pick(r, hostPool)
-	s.vhost = spelling(r, host)
+	_, s.vhost = spelling(r, host)
 	return s
 }
 
@@ -389,6 +393,16 @@ func randomScript(r *hx.Rng, s scenario, steps int) func(w *world, emit func(op,
 func main() {
 	run := hx.Start()
 	r := run.Rng
+	shared, err := newWorld("x:1", nil, nil, nil)
+	if err != nil {
+		panic(err)
+	}
+	// getVirtualHostname of a player built (newConnectedPlayer) with the given virtual host on the shared proxy
+	vhOf := func(v string) string {
+		_, srv := e2e.Pipe(&net.TCPAddr{IP: net.IPv4(10, 0, 0, 7), Port: 50001}, &net.TCPAddr{IP: net.IPv4(10, 0, 0, 2), Port: 25565})
+		defer srv.Close()
+		return proxy.C17NewPlayer(shared.px, srv, "verif", netutil.NewAddr(v, "tcp")).VirtualHostname()
+	}
 
 	// ---- fixed regression cases first
 	fixed := []struct {
@@ -432,27 +446,19 @@ func main() {
 	for _, v := range []string{"play.example.com:25565", "PLAY.EXAMPLE.COM:25565", "play.example.com", "play.example.com.:25565",
 		"play.example.com.\x00FML\x00:25565", "play.example.com///1.2.3.4:5///17:25565", "[::1]:25565", "::1:25565", "", ":", "a:b:c",
 		".play.example.com:1", "[x]y:1", "x]:1", "[x:1", "play.example.com\x00", "///", "...", "a///b\x00c:1"} {
-		w, err := newWorld(v, nil, nil, nil)
-		if err != nil {
-			panic(err)
-		}
-		run.Case("vh/fixed", "vh "+hx.HexS(v), guard(func() string { return hx.HexS(w.pl.VirtualHostname()) }))
+		run.Case("vh/fixed", "vh "+hx.HexS(v), guard(func() string { return hx.HexS(vhOf(v)) }))
 	}
 
 	// ---- host spellings
 	nvh := run.Scale(1500, 20000)
 	for i := 0; i < nvh; i++ {
-		v, class := "", "vh/spelling"
 		if r.Chance(1, 3) {
-			v, class = hostileVhost(r), "vh/hostile"
+			v := hostileVhost(r)
+			run.Case("vh/hostile", "vh "+hx.HexS(v), guard(func() string { return hx.HexS(vhOf(v)) }))
 		} else {
-			v = spelling(r, hx.Pick(r, hostPool))
+			hp, v := spelling(r, hx.Pick(r, hostPool))
+			run.Case("vh/spelling", "vhs "+hx.HexS(hp)+" "+hx.HexS(v), guard(func() string { return hx.HexS(vhOf(v)) }))
 		}
-		w, err := newWorld(v, nil, nil, nil)
-		if err != nil {
-			panic(err)
-		}
-		run.Case(class, "vh "+hx.HexS(v), guard(func() string { return hx.HexS(w.pl.VirtualHostname()) }))
 	}
 
 	// ---- worlds
